@@ -154,6 +154,25 @@ def _k_over_m(k, m):
     return 'other'
 
 
+def _has_sum(spec):
+    if spec[0] == 'add':
+        return True
+    return any(_has_sum(t) for t in spec[1:] if isinstance(t, list) and t and isinstance(t[0], str))
+
+
+def _numerically_polynomial(spec, z0, deg=8, K=41):
+    """Oracle-side: the exact coefficients beyond degree 8 are below 1e-12 of the low ones on the
+    unit disc around z0 (the nominal clause only applies when d >= 1.5)."""
+    c = [float(abs(v)) for v in tf.exact_coefs(spec, z0, K)]
+    return sum(c[deg + 1:]) <= 1e-12 * sum(c[:deg + 1])
+
+
+def _direction_changes(radii):
+    """Number of times the sequence of radii switches between growing and shrinking."""
+    signs = [1 if b > a else -1 for a, b in zip(radii, radii[1:]) if b != a]
+    return sum(1 for s, t in zip(signs, signs[1:]) if s != t)
+
+
 class C17(Prop):
     id = 'C17'
     title = 'FFT Taylor coefficients are accurate within their reported error'
@@ -277,25 +296,35 @@ class C17(Prop):
         # --- every default, n <= 20, d >= 1.5, non-polynomial => neither flag ----------
         # (asserted for the all-default configuration only: with a drawn step_ratio such as 1.2 the
         #  30 iterations cannot even reach a useful radius from r = 0.0059, so "failed" is then the
-        #  documented outcome; those calls are counted with their status.)
+        #  documented outcome; those calls are counted with their status.  Sums are not in the
+        #  property's family and a program that is a polynomial in disguise, e.g. sin(z) + sin(-z),
+        #  is recognised by the oracle from its exact coefficients; both are only counted.)
         all_default = not kw
+        status = 'failed' if failed else 'degenerate' if degenerate else 'clean'
         if n <= 20 and d >= 1.5 and not poly and case.get('r') is None and case.get('max_iter') is None:
-            status = 'failed' if failed else 'degenerate' if degenerate else 'clean'
             if not all_default:
                 ctx.count('default r, n<=20, d>=1.5, drawn step_ratio/num_extrap: %s' % status)
+            elif _has_sum(spec):
+                ctx.count('every default, sum (not in the family): %s' % status)
+            elif _numerically_polynomial(spec, case['z0']):
+                ctx.count('every default, polynomial in disguise: %s' % status)
             else:
                 ctx.count('nominal clause (every default): %s' % status)
                 if failed or degenerate:
+                    changes = _direction_changes(radii)
+                    beyond = max(radii) >= d * (1 - 1e-9)
                     if not EXPLORE:
                         raise Violation('never-failed' if failed else 'never-degenerate',
-                                        '%s: failed=%s degenerate=%s after %d circles, final radius %.4g '
+                                        '%s: failed=%s degenerate=%s after %d circles, final radius %.4g, '
+                                        'largest circle %.4g, %d direction change(s) of the radius search '
                                         '(nearest singularity at distance %s)'
-                                        % (desc, failed, degenerate, ncircles, R,
+                                        % (desc, failed, degenerate, ncircles, R, max(radii), changes,
                                            'inf' if math.isinf(d) else '%.4g' % d),
                                         failed=failed, degenerate=degenerate, all_default=True,
-                                        entire=math.isinf(d))
-                    ctx.sample(dict(call=desc, failed=failed, degenerate=degenerate, circles=ncircles,
-                                    final_radius=R), force=True)
+                                        entire=math.isinf(d), direction_changes=changes,
+                                        beyond_singularity=beyond)
+                    ctx.count('EXPLORE: nominal %s, %d direction change(s), beyond=%s'
+                              % (status, changes, beyond))
         if failed or degenerate:
             return
 
@@ -366,7 +395,7 @@ class C17(Prop):
             key['n'] = case.get('n')
             key['default_r'] = case.get('r') is None
         for name in ('estimate_zero', 'k_over_m', 'beyond_singularity', 'garbage', 'all_default', 'failed',
-                     'degenerate', 'entire', 'field', 'coef_is_zero'):
+                     'degenerate', 'entire', 'direction_changes', 'field', 'coef_is_zero'):
             if name in violation.details:
                 key[name] = violation.details[name]
         return key
